@@ -985,13 +985,16 @@ func func_IsEmpty(rtParams FunctionParameterTypes, val any) (any, error) {
 	}
 
 	value := reflect.ValueOf(val)
+	if !value.IsValid() {
+		return true, nil
+	}
 
 	// Get the zero value for the type of val
 	zeroValue := reflect.Zero(value.Type())
 	zeroValueAsInterface := zeroValue.Interface()
 
 	// Compare the value with the zero value
-	isEmpty := cmp.Equal(val, zeroValueAsInterface, cmpopts.EquateEmpty())
+	isEmpty := cmp.Equal(val, zeroValueAsInterface, cmpopts.EquateEmpty(), cmp.Exporter(func(reflect.Type) bool { return true }))
 
 	return isEmpty, nil
 }
